@@ -242,6 +242,8 @@ var fieldNames = []nameSpec{
 	{"URL", []string{"url"}}, {"Hosts", []string{"hosts"}}, {"Labels", []string{"labels"}}, {"Verbose", []string{"verbose"}}, {"RateLimit", []string{"rate", "limit"}},
 	{"Inner", []string{"inner"}}, {"Server", []string{"server"}}, {"Cache", []string{"cache"}}, {"XMLPath", []string{"xml", "path"}},
 	// pluralised initialisms at the end of a name
+	// words ending in a lower-case letter of more than one byte, before another word, an initialism, or at the end
+	{"CaféURL", []string{"café", "url"}}, {"JoséID", []string{"josé", "id"}}, {"MenüHTML", []string{"menü", "html"}}, {"CaféBar", []string{"café", "bar"}}, {"Señor", []string{"señor"}},
 	{"UserIDs", []string{"user", "ids"}}, {"AllowedIPs", []string{"allowed", "ips"}}, {"BackendURLs", []string{"backend", "urls"}}, {"VMs", []string{"vms"}},
 }
 
@@ -285,6 +287,7 @@ type envTypeGen struct {
 	shorts    int             // pflag shorthand letters handed out
 	empties   bool            // keep struct-typed fields whose struct has no exported field
 	emptyTags bool            // `dials:""` on struct-typed fields
+	ascii     bool            // ASCII field names only (the caller compares name derivations with the ASCII case-conversion model)
 }
 
 func (g *envTypeGen) genStruct(depth int, path, words []string) reflect.Type {
@@ -294,6 +297,9 @@ func (g *envTypeGen) genStruct(depth int, path, words []string) reflect.Type {
 	usedNames := map[string]bool{}
 	for i := 0; i < n; i++ {
 		ns := fieldNames[r.Intn(len(fieldNames))]
+		for g.ascii && caseTypeNonASCII(map[string]any{"type": ns.name}) {
+			ns = fieldNames[r.Intn(len(fieldNames))]
+		}
 		if usedNames[ns.name] {
 			continue
 		}
@@ -311,7 +317,7 @@ func (g *envTypeGen) genStruct(depth int, path, words []string) reflect.Type {
 		if depth > 0 && g.colls && r.Chance(12) {
 			// a collection of structs: not a leaf of any source; its element type is translated by a
 			// sub-transformer
-			sub := &envTypeGen{r: r, used: map[string]bool{}, alias: g.alias}
+			sub := &envTypeGen{r: r, used: map[string]bool{}, alias: g.alias, ascii: g.ascii}
 			inner := sub.genStruct(depth-1, nil, nil)
 			if inner.NumField() == 0 {
 				if !g.empties || f.Anonymous || !r.Chance(50) {
@@ -711,7 +717,8 @@ func init() { register("C11", checkC11) }
 func checkC11(c *Ctx) {
 	r := c.RNG
 	res := c.Res
-	res.Rule = "random config struct types (reflect.StructOf: depth <= 3, field names from a vocabulary of capitalised words and initialisms with known word lists, dials tags in snake/camel/kebab/upper case on any level, dialsenv tags, " +
+	res.ASCIIModel = true
+	res.Rule = "random config struct types (reflect.StructOf: depth <= 3, field names from a vocabulary of capitalised words and initialisms with known word lists (incl. words ending in a multi-byte lower-case letter: CaféURL, JoséID, MenüHTML - outside the ASCII case-conversion model, judged by the documentation oracle alone), dials tags in snake/camel/kebab/upper case on any level, dialsenv tags, " +
 		"value and pointer structs; leaves: bool, string, all integer widths, floats, complex, duration, user-defined named scalars, string/int/named/float slices, string maps, int-valued and named-key maps, map[string][]string, sets, user pointers) with distinct documented names; " +
 		"random subset of the documented variables set (plus decoys: near-miss names, other prefixes, lower-case variants), values incl. out-of-range numbers and quoting-heavy strings; with and without prefix. " +
 		"real Pointerify + env.Source.Value vs Lean model (translated field list with names and tags, variable names, value) and vs the documentation oracle. non-trivial: >= 2 variables set and a nested struct or tag; distinct = by request text"
